@@ -58,9 +58,14 @@ Ltac eval_tac :=
 
 Ltac case_tac :=
   eval_tac;
-  repeat match goal with |- context [if ?c then _ else _] => destruct c eqn:? end;
+  repeat match goal with |- context [(?a <? ?b)%Z] =>
+    let v := eval vm_compute in (a <? b)%Z in change (a <? b)%Z with v end;
+  eval_tac;
+  try match goal with |- context [?w =? 65535] => destruct (w =? 65535) eqn:? end;
+  try match goal with |- context [?w =? 1] => destruct (w =? 1) eqn:? end;
+  cbn [negb andb orb];
   rewrite ?app_nil_r;
-  split; [len_tac | split; [ok_tac | parse_tac]].
+  (split; [len_tac | split; [ok_tac | parse_tac]]).
 
 Ltac zero_tac :=
   match goal with Hz : forallb _ _ = true |- _ => simpl in Hz end;
@@ -68,7 +73,7 @@ Ltac zero_tac :=
   repeat match goal with Hz : is_zero ?w = true, Z : is_zero ?w = true -> _ |- _ =>
            specialize (Z Hz); destruct Z end.
 
-Lemma rt_test a0 a1 a2 a3 a4 a5 a6 a7 a8 a9 a10 a11 a12 a13 a14 a15 :
+Lemma rt_bytes a0 a1 a2 a3 a4 a5 a6 a7 a8 a9 a10 a11 a12 a13 a14 a15 :
   Forall (fun x => x < 256) [a0; a1; a2; a3; a4; a5; a6; a7; a8; a9; a10; a11; a12; a13; a14; a15] ->
   rt_goal [a0; a1; a2; a3; a4; a5; a6; a7; a8; a9; a10; a11; a12; a13; a14; a15].
 Proof.
@@ -110,10 +115,158 @@ Proof.
     destruct Hbb as [->|[->|[->|[->|[->|[->| ->]]]]]];
       destruct Hbl as [->|[->|[->|[->|[->|[->| ->]]]]]]; try (exfalso; lia).
     all: zero_tac.
-    4: eval_tac; destruct (w5 =? 65535) eqn:E5; rewrite ?app_nil_r; (split; [len_tac | split; [ok_tac | ]]).
-    4: rewrite <- ?app_assoc; cbn [app]; first [rewrite pton6_start_gap | rewrite pton6_start_hex by assumption].
-    4: repeat step; cbn [pton6_loop]; repeat step; rewrite ?finish_val.
-    4: repeat match goal with H : hl _ _ _ |- _ => destruct H as [-> ->] end.
-    4: vm_compute.
-    Show.
-Abort.
+    all: case_tac.
+Qed.
+
+(* ------------------------------------------------------------------ *)
+(* from sixteen named bytes to "any list of sixteen bytes"             *)
+(* ------------------------------------------------------------------ *)
+Definition bytes16 (a : list N) : Prop := length a = 16%nat /\ Forall (fun x => x < 256) a.
+
+Lemma rt_all a : bytes16 a -> rt_goal a.
+Proof.
+  intros [Hl HF].
+  do 16 (destruct a as [|? a]; [discriminate|]). destruct a; [|discriminate].
+  apply rt_bytes. exact HF.
+Qed.
+
+Lemma strchr_none t c : ~ In c t -> strchr t c = None.
+Proof.
+  induction t as [|x t IH]; intros H; [reflexivity|]. simpl.
+  destruct (x =? c) eqn:E.
+  - apply N.eqb_eq in E. subst. exfalso. apply H. left; reflexivity.
+  - rewrite IH; [reflexivity|]. intros Hi. apply H. right; exact Hi.
+Qed.
+
+Lemma okc_not_in t c : c < 46 -> Forall okc t -> ~ In c t.
+Proof.
+  intros Hc HF Hi. rewrite Forall_forall in HF. apply HF in Hi. unfold okc in Hi. lia.
+Qed.
+
+(* inet_ntop6 for every size *)
+Theorem ntop6_spec a size :
+  bytes16 a ->
+  let text := text6 a in
+  nlen text <= 45 /\
+  (size < nlen text + 1 -> inet_ntop6 a size = (UV_ENOSPC, [])) /\
+  (nlen text + 1 <= size -> inet_ntop6 a size = (0%Z, text ++ [0])).
+Proof.
+  intros Hb. destruct (rt_all a Hb) as (Hlen & _ & _). cbv zeta.
+  split; [exact Hlen|]. unfold inet_ntop6. rewrite (ntop6_text_closed a Hlen).
+  split; intros H.
+  - apply N.ltb_lt in H. rewrite H. reflexivity.
+  - assert (E : size <? nlen (text6 a) + 1 = false) by (apply N.ltb_ge; lia). rewrite E.
+    rewrite strscpy_fits by (auto; simpl; lia). reflexivity.
+Qed.
+
+Theorem ntop6_bounded a size :
+  bytes16 a ->
+  let r := inet_ntop6 a size in
+  nlen (snd r) <= size /\
+  (fst r = UV_ENOSPC <-> size < nlen (text6 a) + 1) /\
+  (fst r = 0%Z \/ fst r = UV_ENOSPC) /\
+  (fst r <> 0%Z -> snd r = []) /\
+  fst r <> UB_TMP_OVERFLOW.
+Proof.
+  intros Hb. cbv zeta. destruct (ntop6_spec a size Hb) as (Hlen & H1 & H2).
+  destruct (N.lt_ge_cases size (nlen (text6 a) + 1)) as [H|H].
+  - rewrite (H1 H). cbn [fst snd]. repeat split; auto; try lia.
+    + change (nlen []) with 0. lia.
+    + unfold UV_ENOSPC, UB_TMP_OVERFLOW. discriminate.
+  - rewrite (H2 H). cbn [fst snd]. repeat split; auto; try lia.
+    + rewrite nlen_app. change (nlen [0]) with 1. lia.
+    + unfold UV_ENOSPC. discriminate.
+    + unfold UB_TMP_OVERFLOW. discriminate.
+Qed.
+
+(* all 2^128 addresses: parsing what inet_ntop6 printed gives the address back *)
+Theorem ntop6_pton6_roundtrip a size :
+  bytes16 a -> 46 <= size ->
+  exists t, uv_inet_ntop AF_INET6 a size = (0%Z, t ++ [0]) /\
+            ~ In 0 t /\
+            uv_inet_pton AF_INET6 (t ++ [0]) = (0%Z, a).
+Proof.
+  intros Hb Hs. destruct (rt_all a Hb) as (Hlen & Hok & Hp).
+  exists (text6 a).
+  assert (Hnz : ~ In 0 (text6 a)) by (apply okc_not_in; [lia|exact Hok]).
+  split; [|split; [exact Hnz|]].
+  - unfold uv_inet_ntop. cbn [Z.eqb AF_INET AF_INET6 Pos.eqb].
+    apply ntop6_spec; [exact Hb|lia].
+  - unfold uv_inet_pton. cbn [Z.eqb AF_INET AF_INET6 Pos.eqb].
+    rewrite cstr_app_nul by exact Hnz.
+    rewrite strchr_none by (apply okc_not_in; [lia|exact Hok]). exact Hp.
+Qed.
+
+(* ------------------------------------------------------------------ *)
+(* the %zone split                                                     *)
+(* ------------------------------------------------------------------ *)
+Lemma cstr_app_stop a r : ~ In 0 a -> cstr (a ++ r) = a ++ cstr r.
+Proof.
+  induction a as [|x a IH]; intros H; [reflexivity|]. simpl.
+  destruct (x =? 0) eqn:E.
+  - apply N.eqb_eq in E. subst. exfalso. apply H. left; reflexivity.
+  - f_equal. apply IH. intros Hi. apply H. right; exact Hi.
+Qed.
+
+Lemma strchr_app_hit a c r : ~ In c a -> strchr (a ++ c :: r) c = Some (length a).
+Proof.
+  induction a as [|x a IH]; intros H; simpl.
+  - rewrite N.eqb_refl. reflexivity.
+  - destruct (x =? c) eqn:E.
+    + apply N.eqb_eq in E. subst. exfalso. apply H. left; reflexivity.
+    + rewrite IH; [reflexivity|]. intros Hi. apply H. right; exact Hi.
+Qed.
+
+Lemma uv_inet_pton6_plain a : ~ In 0 a -> ~ In 37 a -> uv_inet_pton AF_INET6 a = inet_pton6 a.
+Proof.
+  intros H0 H37. unfold uv_inet_pton. cbn [Z.eqb AF_INET AF_INET6 Pos.eqb].
+  rewrite cstr_id by exact H0. rewrite strchr_none by exact H37. reflexivity.
+Qed.
+
+(* uv_inet_pton: the part before '%' is what is parsed, up to 45 characters *)
+Theorem uv_inet_pton6_zone a z :
+  ~ In 0 a -> ~ In 37 a ->
+  uv_inet_pton AF_INET6 (a ++ 37 :: z) =
+  if (45 <? length a)%nat then (UV_EINVAL, []) else inet_pton6 a.
+Proof.
+  intros H0 H37. unfold uv_inet_pton. cbn [Z.eqb AF_INET AF_INET6 Pos.eqb].
+  rewrite cstr_app_stop by exact H0. simpl cstr.
+  rewrite strchr_app_hit by exact H37.
+  destruct (45 <? length a)%nat; [reflexivity|].
+  rewrite firstn_len_app by reflexivity. reflexivity.
+Qed.
+
+(* uv_ip6_addr: correct when the address part has at most 39 characters *)
+Theorem ip6_addr_zone_partial a z port :
+  ~ In 0 a -> ~ In 37 a -> (length a <= 39)%nat ->
+  uv_ip6_addr (a ++ 37 :: z) port = addr_result (inet_pton6 a) port 16.
+Proof.
+  intros H0 H37 Hl. unfold uv_ip6_addr.
+  rewrite cstr_app_stop by exact H0. simpl cstr.
+  rewrite strchr_app_hit by exact H37.
+  assert (E : (40 <=? length a)%nat = false) by (apply Nat.leb_gt; lia). rewrite E.
+  rewrite firstn_len_app by reflexivity.
+  rewrite uv_inet_pton6_plain by assumption. reflexivity.
+Qed.
+
+(* "1111:2222:3333:4444:5555:6666:12.2.3.123" *)
+Definition zone_witness : list N :=
+  [49;49;49;49;58; 50;50;50;50;58; 51;51;51;51;58; 52;52;52;52;58; 53;53;53;53;58;
+   54;54;54;54;58; 49;50;46;50;46;51;46;49;50;51].
+
+Theorem ip6_addr_zone_truncation_refuted :
+  exists a z b port,
+    ~ In 0 a /\ ~ In 37 a /\ inet_pton6 a = (0%Z, b) /\
+    exists b', uv_ip6_addr (a ++ 37 :: z) port = (0%Z, (htons port, b')) /\ b' <> b.
+Proof.
+  exists zone_witness, [108; 111], [17;17;34;34;51;51;68;68;85;85;102;102;12;2;3;123], 80%Z.
+  split; [|split; [|split]].
+  - unfold zone_witness. simpl. intros H.
+    repeat (destruct H as [H|H]; [discriminate|]). exact H.
+  - unfold zone_witness. simpl. intros H.
+    repeat (destruct H as [H|H]; [discriminate|]). exact H.
+  - vm_compute. reflexivity.
+  - exists [17;17;34;34;51;51;68;68;85;85;102;102;12;2;3;12]. split.
+    + vm_compute. reflexivity.
+    + discriminate.
+Qed.
